@@ -27,9 +27,11 @@ PLAIN_O = ['alpha', 'b', 'Cc', 'd4', 'e_e', 'f', 'gg', 'h', 'i', 'j', 'k', 'l']
 PLAIN_P = ['p', 'q1', 'RR', 's', 't_t', 'u', 'v', 'w', 'x', 'y', 'z', 'm']
 PUNCT = ['a.b', 'x-y', '+1', '-sg', 'X', '.', '0', '1', 'a b', 'q?', '(r)', '[s]', '{t}', "it's", 'u,v',
          'a=b', '%', '&&', '*', '/', '\\', '~', '^', '$', '@', '!', ';', ':', '<', '>', '`', '"q"', 'XX', '..',
-         'B', '2', 'a  b', 'a\tb']
+         'B', '2', 'a  b', 'a\tb', 'None', 'True', 'none', 'NONE', '1.5', '-0', '1e3', 'nan', 'a' * 90, 'A', 'a',
+         'if', 'x' * 33 + ' ' + 'y' * 40]
 TABLEBAD = ['a|b', '#c', 'd#', '|', '||', 'e|', '!!x']
-NONASCII = ['ä', 'Öl', 'é', 'ß', 'ñu', 'Ωmega', '日本', 'đ', 'ça', 'þ', 'ÿ', '€', 'ǅ', 'ı']
+NONASCII = ['ä', 'Öl', 'é', 'ß', 'ñu', 'Ωmega', '日本', 'đ', 'ça', 'þ', 'ÿ', '€', 'ǅ', 'ı',
+            'e\u0301', '\u2126', '\u212b', 'A\u030a', 'ﬁ', '\u00e9', 'İ', 'ǆ']
 CSVONLY = [' lead', 'trail ', 'a\nb', 'c\r\nd', 'e\rf', ' ', 'x,"y"', '"', ',', '\n', 'a,b\n"c"', "'", '""']
 
 TEXT_FORMATS = ['table', 'cxt', 'csv', 'python-literal']
@@ -307,8 +309,8 @@ def generate(rng, seed, run, tier, focus='C11', xmode=False):
             if frmat == 'csv':
                 if rng.random() < 0.4:
                     kwargs['bools_as_int'] = True
-                if rng.random() < 0.3:
-                    kwargs['dialect'] = 'excel-tab'
+                if rng.random() < 0.35:
+                    kwargs['dialect'] = rng.choice(['excel-tab', 'excel-tab', '@excel_tab', '@excel_tab()', '@excel', 'excel'])
                 if rng.random() < 0.3:
                     kwargs['object_header'] = rng.choice(['name', 'o,bj', ''])
             if frmat == 'table' and rng.random() < 0.4:
@@ -322,8 +324,8 @@ def generate(rng, seed, run, tier, focus='C11', xmode=False):
             if frmat == 'csv':
                 if rng.random() < 0.4:
                     kwargs['bools_as_int'] = True
-                if rng.random() < 0.3:
-                    kwargs['dialect'] = 'excel-tab'
+                if rng.random() < 0.35:
+                    kwargs['dialect'] = rng.choice(['excel-tab', '@excel_tab', '@excel_tab()', '@excel', '@unix()'])
             if frmat == 'table' and rng.random() < 0.5:
                 kwargs['indent'] = rng.choice([0, 2, 7])
             events.append([kind, nd, s, frmat, kwargs, rng.choice(['fromstring', 'make_context'])])
@@ -835,7 +837,7 @@ class Storage:
         import csv as _csv
         try:
             if frmat == 'csv':
-                delim = '\t' if kwargs.get('dialect') == 'excel-tab' else ','
+                delim = '\t' if 'tab' in str(kwargs.get('dialect')) else ','
                 got = refcodec.read_csv(text, delimiter=delim)
             else:
                 got = refcodec.READERS[frmat](text)
